@@ -150,7 +150,10 @@ def judge(run, focus, tag, traces, tdesc, progs, pdesc):
         for res in presults:
             run.tlc(res)
         run.extra["programs_judged"] = run.extra.get("programs_judged", 0) + len(progs)
+        run.extra["values_judged_by_tlc"] = run.extra.get("values_judged_by_tlc", 0) + sum(1 for p in progs if p["check_value"])
         for (desc, k, op, ki), v in zip(pdesc, pv):
+            if v[0] == "refeval-disagrees-with-spec":
+                raise tla.MachineryError(f"harness evaluator disagrees with Network!Einsum after step {k} of {desc['concrete']}")
             if v[0] != "ok":
                 desc["_cand"].append((k, 2, f"after step {k} ({op}) the compiled program (option key {ki}) is rejected by "
                                       f"spec/Program.tla at program step {v[1]}: {v[0]}",
